@@ -10,4 +10,8 @@ ASSUME IOEnv.WHAT # "band_layouts" \/ Export("band_layouts",
               ELSE BandLayouts(2, GapClasses, {"flat", "thin", "thick"}, {"a", "b", "ab"}, {"old", "new", "all"})
                    \cup BandLayouts(3, GapClasses, {"flat", "thick"}, {"a", "ab"}, {"old", "new", "all"})
                    \cup BandLayouts(4, {"lt", "eq", "gt"}, {"flat"}, {"ab"}, {"old", "new"}))
+ASSUME IOEnv.WHAT # "nm_cases" \/ Export("nm_cases", IF Quick THEN NMCases(10, {0, 1, 3}) ELSE NMCases(32, {0, 1, 3}))
+ASSUME IOEnv.WHAT # "split_layouts" \/ Export("split_layouts",
+   IF Quick THEN SplitLayouts({210, 250, 260, 400}, {0, 300, 500}, {0, 1}, {"asc", "desc", "shuf"}, {100, 50, 30}, {0, 5, 50})
+   ELSE SplitLayouts({150, 210, 249, 250, 251, 260, 400, 700}, {0, 100, 300, 500, 800}, {0, 1}, {"asc", "desc", "shuf"}, {100, 70, 50, 30, 10}, {0, 5, 50, 95, 100}))
 =============================================================================
